@@ -41,11 +41,25 @@ def expectedEntry (s : State) (n : String) : Option DLayer :=
 
 /-- domain of the property: the default layer is never deleted and a rename never targets an
 existing layer name -/
+def delOK (s : State) (n : String) : Bool :=
+  match AL.get? s.layers n with
+  | some l => decide (s.default ≠ some l.lid)
+  | none => true
+
 def OpOK (s : State) : Op → Prop
-  | .delLayer n => ∀ l, AL.get? s.layers n = some l → s.default ≠ some l.lid
+  | .delLayer n => delOK s n = true
   | .rename _ n => AL.get? s.layers n = none
   | .setOrder o => o.Nodup
   | _ => True
+
+instance (s : State) : (op : Op) → Decidable (OpOK s op)
+  | .delLayer n => inferInstanceAs (Decidable (delOK s n = true))
+  | .rename _ n => inferInstanceAs (Decidable (AL.get? s.layers n = none))
+  | .setOrder o => inferInstanceAs (Decidable o.Nodup)
+  | .newLayer _ => isTrue trivial
+  | .setDefault _ => isTrue trivial
+  | .saveInPlace => isTrue trivial
+  | .saveAs => isTrue trivial
 
 /-- layer object identities are handed out in increasing order -/
 def Fresh (s : State) : Prop := ∀ n l, AL.get? s.layers n = some l → l.lid < s.nextLid
@@ -66,6 +80,14 @@ def run (s : State) (ops : List Op) : State := ops.foldl stepTotal s
 def OpsOK : State → List Op → Prop
   | _, [] => True
   | s, op :: rest => OpOK s op ∧ OpsOK (stepTotal s op) rest
+
+instance decOpsOK : (s : State) → (ops : List Op) → Decidable (OpsOK s ops)
+  | _, [] => isTrue trivial
+  | s, op :: rest =>
+    match (inferInstance : Decidable (OpOK s op)), decOpsOK (stepTotal s op) rest with
+    | isTrue a, isTrue b => isTrue ⟨a, b⟩
+    | isFalse a, _ => isFalse (fun h => a h.1)
+    | _, isFalse b => isFalse (fun h => b h.2)
 
 end LayerSet
 end DefconModel
